@@ -9,3 +9,6 @@ extern "C" { extern const int ck0, ck1, ck2, ck3, ck4, ck5, ck6, ck7; }
 extern "C" void step_immediate() { body_immediate(ck0, ck1); }                 // kind, destination
 extern "C" void step_update()    { body_update((unsigned) ck0, ck1, ck2, ck3); } // configuration, issuer (-1 none), kind, destination
 extern "C" void step_queued2()   { body_queued2(ck0, ck1, ck2, ck3); }          // kind1, dest1, kind2, dest2
+extern "C" void step_order_update() { body_order_update((unsigned) ck0); }
+extern "C" void step_order_react()  { body_order_react((unsigned) ck0); }
+extern "C" void step_order_query()  { body_order_query((unsigned) ck0); }
